@@ -158,6 +158,9 @@ package mcp
 // A stream's payloads are addressed by absolute index: the payload with index k is data[k-first]. 'next' is the
 // index the next appended payload will get.
 
+// mk is an arbitrary predicate used only as an instantiation trigger: a statement 'forall k :: mk(k) && P(k) ==> Q(k)'
+// proved for an uninterpreted mk holds in particular for mk == true.
+//@ fun mk(k int) bool
 //@ fun nextIdx(dl *dataList) int := dl.first + len(dl.data)
 //@ pred holds(dl *dataList, k int) := dl.first <= k && k < dl.first + len(dl.data)
 //@ fun item(dl *dataList, k int) []byte := dl.data[k - dl.first]
@@ -170,9 +173,10 @@ package mcp
 //@   requires dlOK(dl) && dl.size + len(d) <= 9223372036854775807 && nextIdx(dl) + 1 < 9223372036854775807
 //@   modifies dl.data, dl.size, elems(dl.data)
 //@   ensures @appended-at-next nextIdx(dl) == old(nextIdx(dl)) + 1 && dl.first == old(dl.first) && item(dl, old(nextIdx(dl))) == d
-//@   ensures @others-keep-index forall k int :: old(holds(dl, k)) ==> item(dl, k) == old(item(dl, k))
+//@   ensures @others-keep-index forall k int :: {mk(k)} mk(k) && old(holds(dl, k)) ==> item(dl, k) == old(item(dl, k))
 //@   ensures @size dl.size == old(dl.size) + len(d)
 //@   ensures @ok dlOK(dl)
+//@   ensures @backing backing(dl.data) == old(backing(dl.data)) || fresh(dl.data)
 
 // removeFirst: evicts exactly the oldest retained payload; panics only on an empty list.
 //@ func (*dataList).removeFirst [C20]
@@ -183,3 +187,104 @@ package mcp
 //@   ensures @others-keep-index forall k int :: holds(dl, k) ==> old(holds(dl, k)) && item(dl, k) == old(item(dl, k))
 //@   ensures @size result == len(old(item(dl, dl.first))) && dl.size == old(dl.size) - result
 //@   ensures @ok dlOK(dl)
+//@   ensures @backing backing(dl.data) == old(backing(dl.data)) && off(dl.data) == old(off(dl.data)) + 1
+//@   ensures @slots forall j int :: off(dl.data) <= j && j < off(dl.data) + len(dl.data) ==> absElem(dl.data, j) == old(absElem(dl.data, j))
+
+// Representation invariant of the store: every registered stream has a well-formed list; distinct streams have
+// distinct lists with distinct backing arrays (an append to one stream cannot touch another).
+//@ pred storeShape(s *MemoryEventStore) := s != nil && s.store != nil && s.maxBytes >= 1
+//@   && (forall se string :: se in s.store ==> s.store[se] != nil)
+//@   && (forall se string, se2 string :: se in s.store && se2 in s.store && se != se2 ==> s.store[se] != s.store[se2])
+//@ pred listsOK(s *MemoryEventStore) := forall se string, st string :: se in s.store && st in s.store[se] ==> dlOK(s.store[se][st])
+//@ pred listsDistinct(s *MemoryEventStore) := forall se string, st string, se2 string, st2 string ::
+//@        se in s.store && st in s.store[se] && se2 in s.store && st2 in s.store[se2] && (se != se2 || st != st2)
+//@        ==> s.store[se][st] != s.store[se2][st2]
+//@            && (backing(s.store[se][st].data) != backing(s.store[se2][st2].data) || backing(s.store[se][st].data) == 0)
+//@ pred storeWF(s *MemoryEventStore) := storeShape(s) && listsOK(s) && listsDistinct(s)
+//@ pred registered(s *MemoryEventStore, se string, st string) := se in s.store && st in s.store[se]
+
+//@ func NewMemoryEventStore [C20]
+//@   ensures @fresh-and-empty storeWF(result) && result.nBytes == 0 && (forall se string :: !(se in result.store))
+
+// init: find or create the list of (sessionID, streamID); every other stream is untouched.
+//@ func (*MemoryEventStore).init [C20]
+//@   nopanic
+//@   requires storeWF(s)
+//@   modifies mapOf(s.store), mapOf(s.store[sessionID])
+//@   ensures @wf storeWF(s)
+//@   ensures @found registered(s, sessionID, streamID) && result == s.store[sessionID][streamID]
+//@   ensures @existing-kept forall se string, st string :: old(registered(s, se, st)) ==> registered(s, se, st) && s.store[se][st] == old(s.store[se][st])
+//@   ensures @only-this-one-added forall se string, st string :: registered(s, se, st) && !old(registered(s, se, st)) ==> se == sessionID && st == streamID
+//@   ensures @new-is-empty !old(registered(s, sessionID, streamID)) ==> result.first == 0 && len(result.data) == 0 && result.size == 0
+
+// What eviction may do to a stream between two states: drop payloads from the front only; every payload still
+// retained keeps its index and content; the next index is unchanged.
+//@ pred evictedHdr(dl *dataList) := dl.first >= old(dl.first) && nextIdx(dl) == old(nextIdx(dl)) && dl.size <= old(dl.size)
+//@ pred keptItem(dl *dataList, k int) := mk(k) && holds(dl, k) ==> old(holds(dl, k)) && item(dl, k) == old(item(dl, k))
+//@ pred onlyEvicted(dl *dataList) := evictedHdr(dl) && (forall k int :: keptItem(dl, k))
+// the same, phrased over absolute positions of the (unchanged) backing array: eviction never moves a payload
+//@ pred sameWindow(dl *dataList) := backing(dl.data) == old(backing(dl.data)) && off(dl.data) - dl.first == old(off(dl.data) - dl.first)
+//@ pred keptSlot(dl *dataList, j int) := off(dl.data) <= j && j < off(dl.data) + len(dl.data) ==> absElem(dl.data, j) == old(absElem(dl.data, j))
+//@ pred unchangedList(dl *dataList) := dl.first == old(dl.first) && dl.data == old(dl.data) && dl.size == old(dl.size)
+//@   && (forall k int :: holds(dl, k) ==> item(dl, k) == old(item(dl, k)))
+
+// purge: evicts oldest-first until the byte budget is met; the set of streams is untouched.
+//@ func (*MemoryEventStore).purge [C20]
+//@   requires storeWF(s)
+//@   modifies s.nBytes, fields(dataList.first), fields(dataList.size), fields(dataList.data), allElems("[]byte")
+//@   ensures @wf-shape storeShape(s)
+//@   ensures @wf-lists listsOK(s)
+//@   ensures @wf-distinct listsDistinct(s)
+//@   ensures @within-budget s.nBytes <= s.maxBytes
+//@   ensures @oldest-first-hdr forall se string, st string :: registered(s, se, st) ==> evictedHdr(s.store[se][st])
+//@   ensures @oldest-first-items forall se string, st string, k int :: {mk(k), inDom(rawGet(s.store, se), st)} registered(s, se, st) ==> keptItem(s.store[se][st], k)
+//@   ensures @oldest-first-window forall se string, st string :: registered(s, se, st) ==> sameWindow(s.store[se][st])
+//@   ensures @oldest-first-slots forall se string, st string, j int :: registered(s, se, st) ==> keptSlot(s.store[se][st], j)
+//@   loop 1: invariant @shape storeShape(s)
+//@   loop 1: invariant @lists listsOK(s)
+//@   loop 1: invariant @distinct listsDistinct(s)
+//@   loop 1: invariant @evicted-hdr forall se string, st string :: registered(s, se, st) ==> evictedHdr(s.store[se][st])
+//@   loop 1: invariant @evicted-window forall se string, st string :: registered(s, se, st) ==> sameWindow(s.store[se][st])
+//@   loop 1: invariant @evicted-slots forall se string, st string, j int :: registered(s, se, st) ==> keptSlot(s.store[se][st], j)
+//@   loop 2: invariant @shape storeShape(s)
+//@   loop 2: invariant @lists listsOK(s)
+//@   loop 2: invariant @distinct listsDistinct(s)
+//@   loop 2: invariant @evicted-hdr forall se string, st string :: registered(s, se, st) ==> evictedHdr(s.store[se][st])
+//@   loop 2: invariant @evicted-window forall se string, st string :: registered(s, se, st) ==> sameWindow(s.store[se][st])
+//@   loop 2: invariant @evicted-slots forall se string, st string, j int :: registered(s, se, st) ==> keptSlot(s.store[se][st], j)
+//@   loop 3: invariant @shape storeShape(s)
+//@   loop 3: invariant @lists listsOK(s)
+//@   loop 3: invariant @distinct listsDistinct(s)
+//@   loop 3: invariant @evicted-hdr forall se string, st string :: registered(s, se, st) ==> evictedHdr(s.store[se][st])
+//@   loop 3: invariant @evicted-window forall se string, st string :: registered(s, se, st) ==> sameWindow(s.store[se][st])
+//@   loop 3: invariant @evicted-slots forall se string, st string, j int :: registered(s, se, st) ==> keptSlot(s.store[se][st], j)
+
+// validate only reads (it panics if the debug flag is on and the byte count is off).
+//@ func (*MemoryEventStore).validate [C20]
+//@   requires s != nil
+
+//@ func (*MemoryEventStore).Open [C20]
+//@   requires storeWF(s)
+//@   modifies mapOf(s.store), mapOf(s.store[sessionID])
+//@   ensures @wf storeWF(s) && registered(s, sessionID, streamID) && result == nil
+//@   ensures @existing-kept forall se string, st string :: old(registered(s, se, st)) ==> registered(s, se, st) && s.store[se][st] == old(s.store[se][st])
+
+// Append: the payload gets the stream's next index; every payload still retained anywhere keeps index and content;
+// eviction is oldest-first; afterwards the byte count exceeds the budget by at most this payload.
+//@ func (*MemoryEventStore).Append [C20]
+//@   requires storeWF(s) && s.nBytes + len(data) <= 9223372036854775807
+//@   requires registered(s, sessionID, streamID) ==> nextIdx(s.store[sessionID][streamID]) + 1 < 9223372036854775807
+//@        && s.store[sessionID][streamID].size + len(data) <= 9223372036854775807
+//@   modifies s.nBytes, mapOf(s.store), mapOf(s.store[sessionID]), fields(dataList.first), fields(dataList.size), fields(dataList.data), allElems("[]byte")
+//@   ensures @wf storeWF(s) && result == nil
+//@   ensures @appended registered(s, sessionID, streamID) && item(s.store[sessionID][streamID], nextIdx(s.store[sessionID][streamID]) - 1) == data
+//@   ensures @next-index old(registered(s, sessionID, streamID)) ==> nextIdx(s.store[sessionID][streamID]) == old(nextIdx(s.store[sessionID][streamID])) + 1
+//@   ensures @first-index !old(registered(s, sessionID, streamID)) ==> nextIdx(s.store[sessionID][streamID]) == 1 && s.store[sessionID][streamID].first == 0
+//@   ensures @streams-kept forall se string, st string :: old(registered(s, se, st)) ==> registered(s, se, st) && s.store[se][st] == old(s.store[se][st])
+//@        && s.store[se][st].first >= old(s.store[se][st].first)
+//@   ensures @this-stream-keeps-index old(registered(s, sessionID, streamID)) ==> (forall k int :: {mk(k)} mk(k) && old(holds(s.store[sessionID][streamID], k)) && k >= s.store[sessionID][streamID].first
+//@        ==> holds(s.store[sessionID][streamID], k) && item(s.store[sessionID][streamID], k) == old(item(s.store[sessionID][streamID], k)))
+//@   ensures @other-streams-window forall se string, st string :: old(registered(s, se, st)) && (se != sessionID || st != streamID) ==> sameWindow(s.store[se][st]) && evictedHdr(s.store[se][st])
+//@   ensures @other-streams-slots forall se string, st string, j int :: old(registered(s, se, st)) && (se != sessionID || st != streamID) ==> keptSlot(s.store[se][st], j)
+//@   ensures @other-streams-keep-index forall se string, st string, k int :: {mk(k), inDom(rawGet(s.store, se), st)} old(registered(s, se, st)) && (se != sessionID || st != streamID) ==> keptItem(s.store[se][st], k)
+//@   ensures @budget s.nBytes <= s.maxBytes + len(data)
